@@ -557,7 +557,12 @@ class Planner:
             # the module-level measure (ufl.dx / ds / dS): dx(domain, ...) hands the global
             # measure's own metadata dict on to every form built with it
             out = self.new()
-            m = out if self.emit(["meth", out, ["fn", "ufl." + kind], "__call__", [], kw], kind="measure") else None
+            if r.random() < 0.6:
+                # the bare module-level measure itself (f*dx): the integral keeps a reference
+                # to the global measure's metadata dict
+                m = out if self.emit(["lit", out, ["fn", "ufl." + kind]], kind="measure") else None
+            else:
+                m = out if self.emit(["meth", out, ["fn", "ufl." + kind], "__call__", [], kw], kind="measure") else None
         else:
             m = self.call("ufl.Measure", kind, kind="measure", **kw)
         if m is not None and r.random() < 0.15:
